@@ -74,7 +74,10 @@ KF_PREDICATES = {"kf_neartie": kf_neartie}
 
 
 def _count_near_routes(L, s, t, n):
-    """number (capped) of distinct s->t walks of <= n-1 edges whose float length is within 1e-9 of the minimum"""
+    """number (capped) of distinct s->t walks whose float length is within 1e-9 of the minimum; walks of up to 2n edges, because
+    zero-length connections ('log' of w = 1) allow minimum-length walks that repeat nodes"""
+    zero = bool(np.any(L == 0))
+    hcap = 2 * n if zero else n - 1
     best = og.hop_min_len(L, s, hmax=n)
     dmin = float(np.min(best[:, t]))
     if not np.isfinite(dmin):
@@ -90,7 +93,7 @@ def _count_near_routes(L, s, t, n):
         if u == t and h > 0:
             count += 1
             continue
-        if h >= n - 1:
+        if h >= hcap:
             continue
         for v in range(n):
             l = L[u, v]
@@ -126,6 +129,13 @@ def check_floyd(case, ctx):
     for s in range(n):
         for t in range(n):
             if s == t:
+                # a node to itself: zero connections, zero length, whatever sits on the diagonal of the input
+                op = ctx.call(bct.retrieve_shortest_path, s, s, hops, Pmat)
+                if op.ok:
+                    pth = [int(v) for v in np.asarray(op.value).ravel()] if len(op.value) else []
+                    if pth not in ([], [s]) or hops[s, s] != 0 or SPL[s, s] != 0:
+                        fails.append(Failure("retrieve_shortest_path:node-to-itself", "(%d,%d): path %s, hops %r, length %r" % (s, s, pth, hops[s, s], SPL[s, s]), case))
+                        return fails
                 continue
             op = ctx.call(bct.retrieve_shortest_path, s, t, hops, Pmat)
             if not op.ok:
@@ -247,6 +257,10 @@ def check_nav(case, ctx):
                     fails.append(Failure("navigation_wu:reported-lengths-differ-from-path",
                                          "(%d,%d): path %s has hops/len/dist %r/%r/%r, reported %r/%r/%r" % (i, j, p, hop, sl, sd, PLb[i, j], PLw[i, j], PLd[i, j]), case))
                     return fails
+                if mh is not None and hop > mh + 1:
+                    # the hop limit (the unchanged routine gives up once more than max_hops connections have been travelled)
+                    fails.append(Failure("navigation_wu:hop-limit-ignored", "(%d,%d): %d connections travelled and reported successful under max_hops=%r" % (i, j, hop, mh), case))
+                    return fails
                 if hop >= 2:
                     ok_multi = True
             else:
@@ -333,6 +347,20 @@ TENTHS = [0.1, 0.2, 0.3, 0.4, 0.5, 0.6, 0.7]
 
 @st.composite
 def floyd_cases(draw, nmax):
+    c = draw(_floyd_cases(nmax))
+    if draw(st.integers(0, 2)) == 0:
+        # self-connections: they lie on no shortest path, and a node is at distance 0 from itself whatever sits on the diagonal
+        W = np.array(c["W"], dtype=float)
+        dg = draw(st.lists(st.integers(0, 2), min_size=len(W), max_size=len(W)))
+        for i, v in enumerate(dg):
+            if v:
+                W[i, i] = 1.0 if c["kind"] == "bin" else [0.5, 1.0][v - 1]
+        c["W"] = W
+    return c
+
+
+@st.composite
+def _floyd_cases(draw, nmax):
     kind = draw(st.sampled_from(["bin", "len", "len", "inv", "log", "log", "dec", "invf"]))
     if kind in ("dec", "invf"):
         directed = draw(st.booleans())
@@ -373,7 +401,7 @@ def nav_cases(draw):
         D = np.zeros((n, n))
         for (i, j), v in zip(gen.pairs(n, False), vals):
             D[i, j] = D[j, i] = float(v)
-    mh = draw(st.sampled_from([None, None, 1, 2, "n", "2n"]))
+    mh = draw(st.sampled_from([None, 0, None, 1, 2, "n", "2n"]))
     mh = n if mh == "n" else 2 * n if mh == "2n" else mh
     return {"nav": True, "L": L, "D": D, "max_hops": mh, "order": draw(st.sampled_from(gen.ORDERS))}
 
